@@ -48,6 +48,28 @@ Fixpoint star_height (r : regex) : nat :=
   | _ => O
   end.
 
+(* alternatives under an unbounded repetition start with different characters (over a test alphabet):
+   otherwise one subject has several iteration histories and a failing continuation tries them all *)
+Fixpoint alts (r : regex) : list regex :=
+  match r with RAlt a b => alts a ++ alts b | RGrp _ b => alts b | _ => [r] end.
+
+Fixpoint pairwise_disjoint (A : list char) (l : list regex) : bool :=
+  match l with
+  | [] => true
+  | a :: t => forallb (fun b => negb (existsb (fun x => first a x && first b x) A)) t && pairwise_disjoint A t
+  end.
+
+Fixpoint loop_alts_disjoint (A : list char) (r : regex) : bool :=
+  match r with
+  | RSeq a b | RAlt a b => loop_alts_disjoint A a && loop_alts_disjoint A b
+  | RRep _ _ None b => pairwise_disjoint A (alts b) && loop_alts_disjoint A b
+  | RRep _ _ (Some _) b => loop_alts_disjoint A b
+  | RGrp _ b | RLook _ b => loop_alts_disjoint A b
+  | _ => true
+  end.
+
+Definition latin1 : list char := map N.of_nat (seq 0 256).
+
 (* no unbounded repetition over a body that can match the empty string *)
 Fixpoint no_nullable_loop (r : regex) : bool :=
   match r with
@@ -137,6 +159,18 @@ Corollary exec_nonnull_first r k i p rest c res :
   nullable r = false -> exec r k i p rest c = Some res -> exists x t, rest = x :: t /\ first r x = true.
 Proof.
   intros Hn H. apply exec_first in H as [[Hn' _]|H]; [congruence|exact H].
+Qed.
+
+(* two non-nullable alternatives with disjoint first sets on the subject's next character never both match there,
+   whatever the continuations: the iteration history of a loop over them is determined by the subject *)
+Theorem alternatives_exclusive a b k k' i p x t c r1 r2 :
+  nullable a = false -> nullable b = false -> first a x && first b x = false ->
+  exec a k i p (x :: t) c = Some r1 -> exec b k' i p (x :: t) c = Some r2 -> False.
+Proof.
+  intros Na Nb D Ha Hb.
+  apply exec_nonnull_first in Ha as (x1 & t1 & E1 & F1); [|exact Na].
+  apply exec_nonnull_first in Hb as (x2 & t2 & E2 & F2); [|exact Nb].
+  inversion E1; subst. inversion E2; subst. rewrite F1, F2 in D. discriminate.
 Qed.
 
 (* text none of whose characters can start a match: search finds nothing *)
